@@ -8,6 +8,12 @@ CHECKS = {
 }
 CHECKS["C02"] = ("exploration", "5.C02", "refinement against a reference model with the virtual clock placed at chosen offsets around each deadline and the expiry sweeper thread scheduled by the simulator (eager / starved / parked between its collect and delete phases)",
   "Seeded search over TTL histories on all value types; the simulator owns the monotonic clock (exact deadline-d / deadline / deadline+d positions down to 1 ns) and decides when and how far the real sweeper thread runs, including holding it in the window between its scan and its deletions while client commands change the collected keys. Replies and the stored dataset incl. stored deadlines are compared with the model after every step. Exploration: schedules and histories are sampled, not enumerated.")
+CHECKS["C03"] = ("exploration", "5.C03", "refinement of command histories against an executable reference model under per-seed process entropy (hash iteration orders, random picks)",
+  "Seeded search over list/set/hash histories; replies compared with the model (unordered replies as multisets, random picks constrained to current members and then followed), stored dataset compared after every command. Histories and arguments are unbounded, so they are sampled.")
+CHECKS["C04"] = ("exploration", "5.C04", "refinement against a reference model plus a structural invariant walk of the real skip list after every command, tower shapes varied by the entropy seed",
+  "Seeded search over sorted-set histories with colliding scores; replies compared numerically with the model; after every command the real skip list is walked by verif_check_invariants (order, level subsequences, index/length agreement, no NaN) and its level-0 chain compared with the model. Sampled, not enumerated.")
+CHECKS["C05"] = ("exploration", "5.C05", "seeded delivery schedules (segmentation, interleaving, small socket buffers, slow readers) over a simulated transport, reply stream decoded by an independent RESP reader and matched 1:1 against requests",
+  "Seeded search over pipelines x segmentations x connection interleavings x reply-side flow control; oracle: exactly one well-formed reply per request in order, of the expected kind, with promptness checked at sync points where the client stops sending and waits. Segmentations are sampled (with forced alignment to the 8192-byte read size).")
 NOT_APPLICABLE = []
 def main():
     checks = []
